@@ -187,27 +187,34 @@ var (
 func vfbInstallHooks() {
 	vfbHookOnce.Do(func() {
 		vfhook.SetPoint(func(name string, args ...any) {
-			if len(args) == 0 {
+			if vfsHandoverHook(name, args...) { // engine B: parking by SyncChain id
 				return
 			}
-			addr, ok := args[0].(string)
-			if !ok {
-				return
-			}
-			vfbHookMu.RLock()
-			n := vfbHookNodes[addr]
-			vfbHookMu.RUnlock()
-			if n == nil || n.net == nil {
-				return
-			}
-			n.net.mu.Lock()
-			f := n.net.onHook
-			n.net.mu.Unlock()
-			if f != nil {
-				f(name, n, args[1:])
-			}
+			vfbRouteHook(name, args...) // engine A: routing by node address
 		})
 	})
+}
+
+func vfbRouteHook(name string, args ...any) {
+	if len(args) == 0 {
+		return
+	}
+	addr, ok := args[0].(string)
+	if !ok {
+		return
+	}
+	vfbHookMu.RLock()
+	n := vfbHookNodes[addr]
+	vfbHookMu.RUnlock()
+	if n == nil || n.net == nil {
+		return
+	}
+	n.net.mu.Lock()
+	f := n.net.onHook
+	n.net.mu.Unlock()
+	if f != nil {
+		f(name, n, args[1:])
+	}
 }
 
 // vfbNewNet creates keys, shares, group and nodes (handlers are created by StartAll/StartNode).
